@@ -625,3 +625,35 @@ def h_multi_piece_read(size: int, l1: int, c1: int, c2: int, hash_only: bool, p:
     if r is not True:
         return "segment hasher: " + r
     return True
+
+
+# ---- FileHandle.get_size: the size is the length of the data the handle yields ----------------------
+
+class _BufferedFile(_ChunkFile):
+    """a read/write buffered file object: `size` bytes are readable through the handle, but only `flushed` of them have
+    reached the OS so far (what os.fstat on its descriptor reports)"""
+
+    def fileno(self):
+        return 987654
+
+
+def h_get_size(size: int, flushed: int, pos0: int) -> bool:
+    """
+    pre: 0 <= flushed <= size and 0 <= pos0 <= size
+    post: _ == True
+    """
+    f = _BufferedFile(size, [])
+    f.pos = pos0
+    fh = up.FileHandle(f, None)
+    saved = up.os
+    up.os = NS(fstat=lambda fd: NS(st_size=flushed), SEEK_END=2, SEEK_SET=0, urandom=saved.urandom)
+    try:
+        out = _collect(fh.get_size())
+        out2 = _collect(fh.get_size())
+    finally:
+        up.os = saved
+    if out != [size] or out2 != [size]:
+        return "get_size() is not the number of bytes the handle yields (whatever its position / OS-level size)"
+    if f.pos != 0:
+        return "handle not rewound after sizing"
+    return True
